@@ -217,7 +217,10 @@ class SimProblem(Problem):
             return g
         if cor is not None:
             g = self.um.g(x).copy()
-            g[cor["col"]] += cor["delta"]
+            if cor.get("drop"):
+                g[cor["col"]] = 0.0
+            else:
+                g[cor["col"]] += cor["delta"]
             return g
         return self._deliver("grad", x.tobytes(), lambda: self.um.g(x))
 
@@ -247,7 +250,10 @@ class SimProblem(Problem):
 
     def _corrupt_sparse(self, dense, cor):
         D = np.array(dense, copy=True)
-        D[cor["row"], cor["col"]] += cor["delta"]
+        if cor.get("drop"):
+            D[cor["row"], cor["col"]] = 0.0  # the entry is left out of the sparsity pattern
+        else:
+            D[cor["row"], cor["col"]] += cor["delta"]
         if cor.get("sym") and cor["row"] != cor["col"]:
             D[cor["col"], cor["row"]] += cor["delta"]
         return self._sparse(D)
